@@ -282,8 +282,18 @@ def gen_angles(rng, n, tier="quick"):
     while i < n:
         o = gens.rand_observer(rng, tuples=False)
         naive = rand_instant(rng)
+        zamb = None
+        if rng.random() < 0.08:
+            zamb, n_ = zones.ambiguous_instant(rng)
+            if zamb is not None:
+                naive = n_
         spell = [(naive, N, "naive")]
         u = naive.replace(tzinfo=datetime.timezone.utc)
+        if zamb is not None:
+            dta = u.astimezone(zamb.tzinfo)
+            dtb = dta.replace(fold=1 - dta.fold)
+            spell.append((dta, I(td_us(dta.utcoffset())), zamb.describe()))
+            spell.append((dtb, I(td_us(dtb.utcoffset())), zamb.describe() + " fold"))
         if rng.random() < 0.5:
             spell.append((u, I(0), "UTC"))
         for _ in range(rng.randint(1, 2)):
